@@ -827,7 +827,7 @@ def run_script(script):
                     steps.append([vfmt(['wire', call_tag, ('call', [(cps('__Deadline_Event'), 'o')], [], b'\x00')])[1:-1],
                                   vfmt(first)])
                     del sock.written[:]
-                    evt.Set(True)
+                    rt.fire_deadline(evt)
                     rt.drain()
                     # supplied: the tag of the timed-out call; the reason text is the transport's own choice
                     reason = env.discards[-1][1] if env.discards else '?'
